@@ -443,7 +443,7 @@ func checkSaveOrder(c *run.Ctx, r *fsRun, op int, o fsops.Op, dir string, detail
 // ---- the kill / fault enumeration of one script ----
 
 type c19Stats struct {
-	kills, killsInside, fsizeKills, faults, orderChecked, verifies int
+	kills, killsInside, fsizeKills, faults, orderChecked, verifies, recoveries int
 	kinds                                                          map[string]bool
 }
 
@@ -636,6 +636,13 @@ func c19Script(c *run.Ctx) {
 			kind = "marker"
 		}
 		stats.kinds[fmt.Sprintf("kill@%s|%s|%s", kind, ops[pt.op].Op, sizeClass(ops[pt.op].Size))] = true
+		// life goes on in a fresh process: the interrupted key gets a shorter value,
+		// whatever the stop left behind must not leak into it
+		if inProg != nil && inProg.Op == "save" && inProg.Size > 12 {
+			if !recoverySave(c, base, dir, *inProg, v, where, stats) {
+				return
+			}
+		}
 	}
 
 	// stops and errors inside the data write, by a file size limit
@@ -712,6 +719,11 @@ func c19Script(c *run.Ctx) {
 				return
 			}
 			stats.kinds[fmt.Sprintf("kill-inside-write|%s|%s", sizeClass(o.Size), cutClass(cut, o.Size))] = true
+			if inProg != nil && inProg.Op == "save" && inProg.Size > 12 {
+				if !recoverySave(c, base, dir, *inProg, v, where, stats) {
+					return
+				}
+			}
 		}
 	}
 
@@ -770,8 +782,40 @@ func c19Script(c *run.Ctx) {
 	c.Count("kills_inside_a_data_write", stats.fsizeKills)
 	c.Count("error_injection_runs", stats.faults)
 	c.Count("fresh_process_verifications", stats.verifies)
+	c.Count("recovery_saves_after_a_kill", stats.recoveries)
 	c.Count("save_call_orders_checked", stats.orderChecked)
 	c.Sample(map[string]any{"script": opsText, "kill_runs": stats.kills, "kills_inside_a_data_write": stats.fsizeKills, "error_injection_runs": stats.faults})
+}
+
+// recoverySave saves a shorter value under the key of an interrupted Save from
+// a fresh process and checks what a further fresh process reads back.
+func recoverySave(c *run.Ctx, base, dir string, interrupted fsops.Op, after *fsops.Verdict, where string, stats *c19Stats) bool {
+	op := fsops.Op{Op: "save", Key: interrupted.Key, Size: 12 + interrupted.Seed%5, Seed: interrupted.Seed + 7000, Bufs: 1}
+	script := filepath.Join(base, "recovery.json")
+	sb, _ := json.Marshal([]fsops.Op{op})
+	os.WriteFile(script, sb, 0o644)
+	out, err := exec.Command(fskillBin(), "run", dir, script).Output()
+	if err != nil {
+		c.Inconclusive("recovery run failed: " + err.Error())
+		return true
+	}
+	want := fsModel{}
+	for _, e := range after.Entries {
+		if e.Err == "" && !e.Absent {
+			want[e.Key] = fsVal{e.Len, e.Sum}
+		}
+	}
+	if strings.Contains(string(out), "END 0 ok") {
+		want.apply(op)
+	}
+	v2, err := verifyDir(dir)
+	if err != nil {
+		c.Inconclusive(err.Error())
+		return true
+	}
+	stats.verifies++
+	stats.recoveries++
+	return checkState(c, where+"; then a fresh process saved a "+strconv.Itoa(op.Size)+" byte value under that key (outcome "+strings.TrimSpace(string(out))+")", v2, want, nil, map[string]any{"after_kill": after, "after_recovery": v2})
 }
 
 func sizeClass(n int) string {
@@ -1106,7 +1150,7 @@ func init() {
 		},
 		ChunkSize:    2,
 		ChildTimeout: 900,
-		Rule:         "three in four cases are scripts of 2-5 Save/Delete operations on 1-3 keys (client identifier, both publish ranges, marker range, highest key; first writes, overwrites, deletes of present and absent keys; values 12 B-4 MiB in 1-3 buffers) run by a helper process built from the working tree (one locked OS thread) under strace: (1) an uninterrupted run gives the helper's own system call sequence; (2) one run per system call of every operation (and per marker write around it) with SIGKILL injected at the entry of that call (= stop after the previous one), then a FRESH process lists and loads: every key must hold its complete previous or complete new value (sha256), other keys the model value, every listed key must load, no key twice; (3) stops inside the data write at byte counts {1, half, buffer boundary +-1, all but one} through RLIMIT_FSIZE with the retry write killed, and the same limit without the kill as a write error after partial progress; (4) an error injected at each openat/write/fsync/close/renameat/unlinkat: the reported outcome drives the model, the final state must equal it; (5) for every Save that reported success, in all of these runs, the call order is checked: data written to a name List does not report, a successful fsync after the last write, only then rename onto the key. One in four cases runs 1-4 writer goroutines (one per key; half of the time two of the keys are an outbound record and the reception marker of the same packet identifier), 1-8 readers and 1-3 listers on the real store under the race detector and checks the recorded history with porcupine against a per-key register (reads return complete values only), List against the presence intervals. Non-trivial: a kill or error that landed inside an operation; distinct by (system call, operation, size class, cut class).",
+		Rule:         "three in four cases are scripts of 2-5 Save/Delete operations on 1-3 keys (client identifier, both publish ranges, marker range, highest key; first writes, overwrites, deletes of present and absent keys; values 12 B-4 MiB in 1-3 buffers) run by a helper process built from the working tree (one locked OS thread) under strace: (1) an uninterrupted run gives the helper's own system call sequence; (2) one run per system call of every operation (and per marker write around it) with SIGKILL injected at the entry of that call (= stop after the previous one), then a FRESH process lists and loads: every key must hold its complete previous or complete new value (sha256), other keys the model value, every listed key must load, no key twice; (3) stops inside the data write at byte counts {1, half, buffer boundary +-1, all but one} through RLIMIT_FSIZE with the retry write killed, and the same limit without the kill as a write error after partial progress; after every stop inside a Save a further fresh process saves a shorter value under that key and another one reads it back: exactly the new value, nothing of what the stop left behind; (4) an error injected at each openat/write/fsync/close/renameat/unlinkat: the reported outcome drives the model, the final state must equal it; (5) for every Save that reported success, in all of these runs, the call order is checked: data written to a name List does not report, a successful fsync after the last write, only then rename onto the key. One in four cases runs 1-4 writer goroutines (one per key; half of the time two of the keys are an outbound record and the reception marker of the same packet identifier), 1-8 readers and 1-3 listers on the real store under the race detector and checks the recorded history with porcupine against a per-key register (reads return complete values only), List against the presence intervals. Non-trivial: a kill or error that landed inside an operation; distinct by (system call, operation, size class, cut class).",
 		Assumptions: []string{
 			"a killed process keeps the page cache: 'flushed before visible' is observed as system call order (successful fsync before rename), not as bytes surviving power loss",
 			"strace injects the signal at system call entry, so the stop lies between two system calls; RLIMIT_FSIZE places it inside the data write",
